@@ -61,6 +61,7 @@ func (e *StreamEncoder) SequenceCompleted() error {
 		return fmt.Errorf("update header: %w", err)
 	}
 	e.fileHeaderWritten = false
+	e.fileHeader.DataSize, e.fileHeader.CRC = 0, 0
 	e.enc.reset()
 	if f, ok := e.enc.w.(flusher); ok {
 		return f.Flush()
